@@ -8,29 +8,10 @@ Local Open Scope string_scope.
 
 (** C12: discard sites that can swallow RecursionLimitExceeded on the pinned tree
     (key = file:fn/kind/head#ordinal). *)
-Definition c12_known_sites : list string := [
-  "parser/alter:parse_pg_alter_role/let_ok/parse_expr#0";
-  "parser/mod:parse_prefix/maybe_parse/parse_data_type#0";
-  "parser/mod:try_parse_lambda/maybe_parse/parse_identifier#0";
-  "parser/mod:parse_position_expr/maybe_parse/expect_token#0";
-  "parser/mod:parse_explain/maybe_parse/parse_statement#0";
-  "parser/mod:parse_set/let_ok/parse_expr#0";
-  "parser/mod:parse_set/match_err_wild/parse_expr#0";
-  "parser/mod:parse_table_factor/maybe_parse/parse_derived_table_factor#0"
-].
+Definition c12_known_sites : list string := [].
 
 (** C12: how those sites show on the limit ladder (statement kind : deviation class). *)
-Definition c12_known_ladder : list string := [
-  "ladder:AlterRole:syntax";
-  "ladder:Explain:syntax";
-  "ladder:Merge:syntax";
-  "ladder:Query:ok";
-  "ladder:Query:panic";
-  "ladder:Query:syntax";
-  "ladder:SetTimeZone:syntax";
-  "ladder:SetVariable:syntax";
-  "ladder:Update:syntax"
-].
+Definition c12_known_ladder : list string := [].
 
 (** C13: hand-rolled comma loops that ignore the trailing_commas option (confirmed by a witness
     on every run; key = file:fn/comma_loop/Token::Comma#ordinal). *)
@@ -94,7 +75,10 @@ Definition c13_not_a_list : list string := [
     (identifier parsing, Snowflake stage names and COPY option lists, MERGE clauses and DECLARE
     treat [;] like EOF explicitly; parse_copy's expect_token(';') is the documented COPY .. FROM
     STDIN exception). *)
-Definition c11_known_sites : list string := [
+Definition c11_known_sites : list string := [].
+
+Definition c11_reviewed_sites : list string := [
+  (* formerly behind known findings; repaired in /repo (b89d7b9): they now treat ';' like EOF / un-consume *)
   "parser/mod:parse_flush/next_loop/-#0";
   "parser/mod:parse_cache_table/eof/-#0";
   "parser/mod:parse_cache_table/eof/-#1";
@@ -102,10 +86,7 @@ Definition c11_known_sites : list string := [
   "parser/mod:parse_cache_table/eof/-#3";
   "parser/mod:parse_cache_table/eof/-#4";
   "parser/mod:parse_identifiers/next_loop/-#0";
-  "parser/mod:parse_identifiers/eof/-#0"
-].
-
-Definition c11_reviewed_sites : list string := [
+  "parser/mod:parse_identifiers/eof/-#0";
   "dialect/snowflake:parse_create_table/next_loop/-#0";
   "dialect/snowflake:parse_create_table/eof/-#0";
   "dialect/snowflake:parse_copy_into/next_loop/-#0";
@@ -138,11 +119,77 @@ Definition c11_reviewed_sites : list string := [
 ].
 
 (** C11: statement kinds whose parser does not stop before the separator (sampled). *)
-Definition c11_known_kinds : list string := [
-  "script:Cache";
-  "script:CopyIntoSnowflake";
-  "script:CreateTable:AS_TABLE";
-  "script:Declare";
-  "script:Flush";
-  "script:ShowVariable"
+Definition c11_known_kinds : list string := [].
+
+(** C14: writes to parser state outside the modelled constructors/primitives.  Only the cursor
+    index is written (backtracking in parse_wildcard_expr: save at entry, restore on the fallback
+    path); the index is reset by with_tokens*, so it cannot leak between parses. *)
+Definition c14_reviewed_writes : list string := [
+  "parser/mod:parse_wildcard_expr/write/index#0"
+].
+
+(** C14: reads of a token's [.location].  Every one feeds an error constructor (parser_err!,
+    Parser::parse's error text, Display of TokenizerError): results depend on locations only
+    through error position text. *)
+Definition c14_location_reads : list string := [
+  "parser/mod:parse_flush/location/-#0";
+  "parser/mod:parse_prefix/location/-#0";
+  "parser/mod:parse_prefix/location/-#1";
+  "parser/mod:parse_interval/location/-#0";
+  "parser/mod:parse_bigquery_struct_literal/location/-#0";
+  "parser/mod:parse_struct_field_expr/location/-#0";
+  "parser/mod:parse_struct_type_def/location/-#0";
+  "parser/mod:parse_infix/location/-#0";
+  "parser/mod:parse_infix/location/-#1";
+  "parser/mod:parse_infix/location/-#2";
+  "parser/mod:expected/location/-#0";
+  "parser/mod:parse_all_or_distinct/location/-#0";
+  "parser/mod:parse_create_external_table/location/-#0";
+  "parser/mod:parse_create_role/location/-#0";
+  "parser/mod:parse_drop/location/-#0";
+  "parser/mod:parse_hive_formats/location/-#0";
+  "parser/mod:parse_create_table/location/-#0";
+  "parser/mod:parse_optional_table_constraint/location/-#0";
+  "parser/mod:parse_call/location/-#0";
+  "parser/mod:parse_literal_char/location/-#0";
+  "parser/mod:parse_value/location/-#0";
+  "parser/mod:parse_introduced_string_value/location/-#0";
+  "parser/mod:parse_literal_uint/location/-#0";
+  "parser/mod:parse_optional_group_by/location/-#0";
+  "parser/mod:parse_repetition_pattern/location/-#0";
+  "parser/mod:parse_repetition_pattern/location/-#1";
+  "parser/mod:parse_repetition_pattern/location/-#2";
+  "parser/mod:parse_repetition_pattern/location/-#3";
+  "parser/mod:parse_repetition_pattern/location/-#4";
+  "parser/mod:parse_revoke/location/-#0";
+  "parser/mod:parse_replace/location/-#0";
+  "parser/mod:parse_duplicate_treatment/location/-#0";
+  "parser/mod:parse_select_item/location/-#0";
+  "parser/mod:parse_top/location/-#0";
+  "src/tokenizer:fmt/location/-#0"
+].
+
+(** C15: uses of Any / TypeId.  All inside src/dialect/mod.rs: the import, the supertrait bound,
+    the default body of Dialect::dialect() and the test in <dyn Dialect>::is(). *)
+Definition c15_identity_sites : list string := [
+  "dialect/mod:<module>/identity/use#0";
+  "dialect/mod:<module>/identity/Any#0";
+  "dialect/mod:dialect/identity/TypeId#0";
+  "dialect/mod:dialect/identity/type_id#0";
+  "dialect/mod:is/identity/TypeId::of#0"
+].
+
+(** C15: construction of a concrete dialect outside an `impl Dialect for ..` (delegation inside
+    an impl, Redshift -> PostgreSQL predicates, needs no pin): the public factory dialect_from_str. *)
+Definition c15_concrete_dialects : list string := [
+  "dialect/mod:dialect_from_str/concrete_dialect/MySqlDialect#0";
+  "dialect/mod:dialect_from_str/concrete_dialect/PostgreSqlDialect#0";
+  "dialect/mod:dialect_from_str/concrete_dialect/HiveDialect#0";
+  "dialect/mod:dialect_from_str/concrete_dialect/SQLiteDialect#0";
+  "dialect/mod:dialect_from_str/concrete_dialect/RedshiftSqlDialect#0";
+  "dialect/mod:dialect_from_str/concrete_dialect/MsSqlDialect#0";
+  "dialect/mod:dialect_from_str/concrete_dialect/ClickHouseDialect#0";
+  "dialect/mod:dialect_from_str/concrete_dialect/AnsiDialect#0";
+  "dialect/mod:dialect_from_str/concrete_dialect/DuckDbDialect#0";
+  "dialect/mod:dialect_from_str/concrete_dialect/DatabricksDialect#0"
 ].
